@@ -14,7 +14,7 @@ from .. import bounds
 from ..facts import walk, AnalysisBroken
 from ..sym import locname
 
-DECODER_RE = re.compile(r'(Decode|BodyExtract|Radix64Decode|ArmorDecode|CRC24|SymmetricDecrypt)')
+DECODER_RE = re.compile(r'(Decode|BodyExtract|NotRadix64|ArmorDecode|CRC24|SymmetricDecrypt)')
 IMPORT_RE = re.compile(r'(::import$|^operator>>$)')
 # (function, container, index role): sites the linear prover cannot discharge, triaged by reading
 S2_EXCEPTIONS = {
@@ -65,6 +65,9 @@ def entry_tainted_params(f):
         for p in f['params']:
             if p['t'] in STRINGISH or 'unsigned char' in p['t'] and 'vector' in p['t']:
                 out.add(p['n'])
+    if 'RFC4880' in f['file'] and q.split('::')[-1] == 'NotRadix64':
+        for p in f['params']:
+            out.add(p['n'])
     if 'RFC4880' in f['file'] and 'SymmetricDecrypt' in q:
         for p in f['params']:
             if p['n'] in ('chunksize',):
